@@ -175,7 +175,7 @@ class Var(Node):
         return True
 
     def src(self, pr):
-        return self.name
+        return pr.nm(self.name)
 
     def ev(self, env, m):
         return env.get(self.name)
@@ -691,7 +691,7 @@ class FnDef:
         req = len(self.params) - len(self.defaults)
         ps = []
         for i, (n, t) in enumerate(self.params):
-            s = f"{n}: {ty_src(t)}"
+            s = f"{pr.nm(n)}: {ty_src(t)}"
             if i >= req:
                 s += f" ?= {self.defaults[i - req].src(pr)}"
             ps.append(s)
@@ -705,7 +705,7 @@ class FnDef:
 
     def src(self, pr, indent=0):
         pad = "    " * indent
-        return f"{pad}fn {self.name}({self.header(pr)})->{ty_src(self.ret)}{{\n{self.body_src(pr, indent + 1)}\n{pad}}}"
+        return f"{pad}fn {pr.nm(self.name)}({self.header(pr)})->{ty_src(self.ret)}{{\n{self.body_src(pr, indent + 1)}\n{pad}}}"
 
 
 class LetDecl:
@@ -714,7 +714,7 @@ class LetDecl:
 
     def src(self, pr, indent=0):
         ann = f": {ty_src(self.expr.ty)}" if self.annotate else ""
-        return "    " * indent + f"let {self.name}{ann} = {self.expr.src(pr)};"
+        return "    " * indent + f"let {pr.nm(self.name)}{ann} = {self.expr.src(pr)};"
 
     def run(self, env, m):
         env.vars[self.name] = self.expr.ev(env, m)
@@ -762,7 +762,7 @@ class Call(Node):
     def src(self, pr):
         args = [a.src(pr) for a in self.args]
         if isinstance(self.callee, Var) and args and pr.form(["call", "call", "method"]) == "method":
-            return f"{self.args[0].atom(pr)}.{self.callee.name}(" + ", ".join(args[1:]) + ")"
+            return f"{self.args[0].atom(pr)}.{pr.nm(self.callee.name)}(" + ", ".join(args[1:]) + ")"
         return f"{self.callee.atom(pr)}(" + ", ".join(args) + ")"
 
     def ev(self, env, m, tail=None):
@@ -830,8 +830,12 @@ def call_closure(c, args, m):
 # printer options
 
 class Printer:
-    def __init__(self, rng, plain=False):
+    def __init__(self, rng, plain=False, names=None):
         self.rng, self.plain = rng, plain
+        self.names = names or {}        # model name (unique) -> spelling in the source (C03: shadowing)
+
+    def nm(self, name):
+        return self.names.get(name, name)
 
     def form(self, choices):
         return choices[0] if self.plain else self.rng.choice(choices)
@@ -852,8 +856,8 @@ class Program:
     def __init__(self, decls):
         self.decls = decls
 
-    def src(self, rng=None, plain=False):
-        pr = Printer(rng, plain or rng is None)
+    def src(self, rng=None, plain=False, names=None):
+        pr = Printer(rng, plain or rng is None, names)
         return DECLS + "\n".join(d.src(pr, 0) for d in self.decls) + "\n"
 
     def run(self, limits=None, stop_at_error=False):
